@@ -1,0 +1,85 @@
+package compiler
+
+import (
+	"fmt"
+
+	"github.com/grafana/cog/internal/ast"
+)
+
+var _ Pass = (*StructFieldIdentifiers)(nil)
+
+// StructFieldIdentifiers checks that the fields of every struct can be told
+// apart in the target language.
+//
+// `Identifier` gives the identifier that the language writes for a field
+// (without it, nothing is checked). The conversions between naming styles are
+// not injective: `user_id` and `userId`, `foo` and `Foo` can end up with the
+// same identifier. Such a struct can't be generated: the pass reports it
+// instead of letting code that does not compile be written.
+type StructFieldIdentifiers struct {
+	Language   string
+	Identifier func(field ast.StructField) string
+}
+
+func (pass *StructFieldIdentifiers) Process(schemas []*ast.Schema) ([]*ast.Schema, error) {
+	if pass.Identifier == nil {
+		return schemas, nil
+	}
+
+	for _, schema := range schemas {
+		for _, object := range schema.Objects.Values() {
+			if err := pass.checkType(object, object.Type); err != nil {
+				return nil, err
+			}
+		}
+	}
+
+	return schemas, nil
+}
+
+// checkType looks for structs in a type: the type itself, the items of a list,
+// the values of a map, the branches of a union or of an intersection.
+func (pass *StructFieldIdentifiers) checkType(object ast.Object, def ast.Type) error {
+	switch {
+	case def.IsStruct():
+		return pass.checkStruct(object, def.AsStruct())
+	case def.IsArray():
+		return pass.checkType(object, def.AsArray().ValueType)
+	case def.IsMap():
+		return pass.checkType(object, def.AsMap().ValueType)
+	case def.IsDisjunction():
+		for _, branch := range def.AsDisjunction().Branches {
+			if err := pass.checkType(object, branch); err != nil {
+				return err
+			}
+		}
+	case def.IsIntersection():
+		for _, branch := range def.AsIntersection().Branches {
+			if err := pass.checkType(object, branch); err != nil {
+				return err
+			}
+		}
+	}
+
+	return nil
+}
+
+func (pass *StructFieldIdentifiers) checkStruct(object ast.Object, def ast.StructType) error {
+	// identifier → name of the field it was given to
+	identifiers := make(map[string]string, len(def.Fields))
+
+	for _, field := range def.Fields {
+		identifier := pass.Identifier(field)
+
+		if other, taken := identifiers[identifier]; taken {
+			return fmt.Errorf("%s.%s: the fields '%s' and '%s' are both named '%s' in %s: one of them has to be renamed", object.SelfRef.ReferredPkg, object.Name, other, field.Name, identifier, pass.Language)
+		}
+		identifiers[identifier] = field.Name
+
+		if err := pass.checkType(object, field.Type); err != nil {
+			return err
+		}
+	}
+
+	return nil
+}
